@@ -23,7 +23,11 @@ def run_obj(cls, precision, t, d):
     import scared
     o = getattr(scared, cls)(precision=precision)
     o.update(t, d)
-    return np.asarray(o.compute())
+    first = np.asarray(o.compute())
+    again = np.asarray(o.compute())              # asking again must give the same statistic (no state consumed by compute)
+    if first.shape != again.shape or not np.array_equal(first, again, equal_nan=True):
+        return again            # the second answer is judged against the definition (the first one is by the callers of earlier runs)
+    return first
 
 
 def check_entry(chk, what, cls, precision, got, want, mag, ctx):
@@ -90,14 +94,18 @@ def layouts(chk):
     rng = random.Random(chk.seed)
     ncase = 12 if chk.tier == 'quick' else 80
     shapes = [(1, [3]), (3, [2, 2]), (2, [2, 3]), (3, [1]), (2, [2, 1, 2])]
-    cases = []
+    # data dtypes with values near their extremes (squares / products must not wrap in the data's own integer type)
+    wide = [('uint8', 0, 255), ('int8', -128, 127), ('uint16', 0, 1000), ('int16', -1000, 1000), ('uint8', 0, 8)]
+    cases, ddts = [], []
     for i in range(ncase):
         S, wshape = shapes[i % len(shapes)]
         W = int(np.prod(wshape))
         kind = 'cpa' if i % 3 else 'dpa'
         c = dh.base_cfg(kind, S=S, W=W, wshape=wshape)
         n = rng.randint(2, 9)
-        rows = dh.random_rows(rng, c, n, tmax=15, tmin=0, dvals=[0, 1] if kind == 'dpa' else list(range(9)))
+        ddt, dlo, dhi = wide[i % len(wide)]
+        rows = dh.random_rows(rng, c, n, tmax=15, tmin=0, dvals=[0, 1] if kind == 'dpa' else [rng.randint(dlo, dhi) for _ in range(6)] + [dlo, dhi])
+        ddts.append('uint8' if kind == 'dpa' else ddt)
         if i % 4 == 1:       # a constant sample column and a constant word
             for rr in rows:
                 rr['t'][0] = 7
@@ -108,7 +116,7 @@ def layouts(chk):
         c, rows = case['c'], case['rows']
         dt, sh, sc = PRES[ci % len(PRES)]
         t = ((np.array([r['t'] for r in rows], dtype='float64') + sh) * sc).astype(dt)
-        d = np.array([r['d'] for r in rows], dtype='uint8').reshape((len(rows),) + tuple(c['wshape']))
+        d = np.array([r['d'] for r in rows], dtype=ddts[ci]).reshape((len(rows),) + tuple(c['wshape']))
         classes = ['CPADistinguisher', 'CPAAlternativeDistinguisher'] if c['kind'] == 'cpa' else ['DPADistinguisher']
         for cls in classes:
             for prec in ('float32', 'float64'):
